@@ -263,6 +263,7 @@ void ezc3d::ParametersNS::Parameters::write(std::fstream &f) const
     nBlocksToNext = int(actualPos)/512;
     if (int(actualPos) % 512 > 0)
         ++nBlocksToNext;
+    ++nBlocksToNext; // blocks are numbered from 1: the data start in the block that follows the ones already written
     f.write(reinterpret_cast<const char*>(&nBlocksToNext), ezc3d::BYTE);
     f.seekg(actualPos);
 }
